@@ -647,10 +647,10 @@ impl InstrFormat for MsgHooks {
             Err(e) => return Err(e),
         };
 
-        let opcode = f.read_i8()?;
+        let opcode = f.read_u8()?;
         let argsize = f.read_u8()?;
         let args_blob = f.read_byte_vec(argsize as usize)?;
-        let instr = RawInstr { time: time.into(), opcode: opcode as _, param_mask: 0, args_blob, ..RawInstr::DEFAULTS };
+        let instr = RawInstr { time: time.into(), opcode: opcode.into(), param_mask: 0, args_blob, ..RawInstr::DEFAULTS };
 
         // eprintln!("pos: {:#06x} - time: {:#06x} opcode: {:#04x} argsize: {:#04x} args: {:02x?}", pos, time as u16, opcode as u8, argsize, args_blob);
         if (time, opcode, argsize) == (0, 0, 0) {
@@ -660,10 +660,10 @@ impl InstrFormat for MsgHooks {
         }
     }
 
-    fn write_instr(&self, f: &mut BinWriter, _: &dyn Emitter, instr: &RawInstr) -> WriteResult {
-        f.write_i16(instr.time as _)?;
-        f.write_u8(instr.opcode as _)?;
-        f.write_u8(instr.args_blob.len() as _)?;  // this version writes argsize rather than instr size
+    fn write_instr(&self, f: &mut BinWriter, emitter: &dyn Emitter, instr: &RawInstr) -> WriteResult {
+        f.write_i16(llir::fit_header_field(emitter, "time", instr.time)?)?;
+        f.write_u8(llir::fit_header_field(emitter, "opcode", instr.opcode)?)?;
+        f.write_u8(llir::fit_header_field(emitter, "argument size", instr.args_blob.len())?)?;  // this version writes argsize rather than instr size
         f.write_all(&instr.args_blob)?;
         Ok(())
     }
